@@ -320,7 +320,7 @@ fn ranges(acc: &mut Acc, tier: Tier) {
         }
     }
     // (b) all strings "bytes=" + <= n symbols over the alphabet, plus prefix spellings
-    let alpha = ['0', '1', '9', '-', ',', ' ', '+', 'a'];
+    let alpha = ['0', '1', '9', '-', ',', ' ', '+', 'a', 'é'];
     let n = tier.pick(6, 7);
     let mut tails: Vec<String> = vec![String::new()];
     let mut layer = vec![String::new()];
@@ -659,7 +659,7 @@ pub fn run(ctx: &Ctx) -> (Acc, Report) {
     mimes_through_the_adapter(&mut acc);
     let rep = Report {
         level: "exploration",
-        rule: "timestamps: full product of boundary fields (9 years x 3 months x valid days of {1,28,29,30,31} x 3 hours x 2 minutes x 2 seconds x 3 millisecond values x 8 (thorough 12) UTC offsets) parsed from RFC 3339 - and built as the same instant from a time::OffsetDateTime carrying that offset and from a SystemTime - and re-emitted in all 3 formats; ranges: all (first,last,suffix,length) over 0..16 (thorough 0..24) and 9 boundary values incl. 2^63-1, every string bytes= + <=6 (thorough 7) symbols over {0,1,9,-,',',' ',+,a}, prefix spellings and 2^63/2^64 boundaries; copy sources: 3 buckets x 22 keys x 5 version ids, in 5 client spellings (segments escaped with '/' kept, everything escaped incl. the separator, each with/without leading slash, every byte escaped) and as the library encodes them; content types: 5x5x6 grammar product + 11 malformed, judged on type, subtype, suffix and parameter list, through the library type and through the adapter's own call sites (typed output member -> Content-Type header of GetObject and HeadObject; Content-Type request header -> PutObject's typed member). Range texts of up to 4 symbols and the boundary spellings, and every copy-source spelling, also travel through the adapter's own call sites (Range header -> GetObject's typed member, x-amz-copy-source -> CopyObject's). Oracles: proleptic-Gregorian arithmetic cross-checked per instant with aws-smithy-types, RFC 9110 single-range grammar and interval function, RFC 3986 percent codec. Distinct by text.".into(),
+        rule: "timestamps: full product of boundary fields (9 years x 3 months x valid days of {1,28,29,30,31} x 3 hours x 2 minutes x 2 seconds x 3 millisecond values x 8 (thorough 12) UTC offsets) parsed from RFC 3339 - and built as the same instant from a time::OffsetDateTime carrying that offset and from a SystemTime - and re-emitted in all 3 formats; ranges: all (first,last,suffix,length) over 0..16 (thorough 0..24) and 9 boundary values incl. 2^63-1, every string bytes= + <=6 (thorough 7) symbols over {0,1,9,-,',',' ',+,a,é}, prefix spellings and 2^63/2^64 boundaries; copy sources: 3 buckets x 22 keys x 5 version ids, in 5 client spellings (segments escaped with '/' kept, everything escaped incl. the separator, each with/without leading slash, every byte escaped) and as the library encodes them; content types: 5x5x6 grammar product + 11 malformed, judged on type, subtype, suffix and parameter list, through the library type and through the adapter's own call sites (typed output member -> Content-Type header of GetObject and HeadObject; Content-Type request header -> PutObject's typed member). Range texts of up to 4 symbols and the boundary spellings, and every copy-source spelling, also travel through the adapter's own call sites (Range header -> GetObject's typed member, x-amz-copy-source -> CopyObject's). Oracles: proleptic-Gregorian arithmetic cross-checked per instant with aws-smithy-types, RFC 9110 single-range grammar and interval function, RFC 3986 percent codec. Distinct by text.".into(),
         exhaustive: true,
         extra: json!({}),
         assumptions: vec!["range strings with lenient list syntax (blanks, empty elements), a non-lower-case unit, or a suffix length >= 2^63 are recorded, not judged".into()],
